@@ -501,3 +501,24 @@ def main(tier: str, seed: int) -> int:
         chk.merge(res)
     chk.exhaustive["generated_signatures_and_values"] = False
     return chk.finish()
+
+
+def replay(path: str) -> int:
+    """Re-execute the recorded (tier, seed) and report whether the recorded mechanism key fires again.
+
+    Generation is a pure function of the seed, so the witness case is regenerated exactly; 1 = fired again,
+    2 = diverged (reported as inconclusive / flaky), never 0.
+    """
+    import json
+    import os
+
+    from lib import evidence
+
+    with open(path) as fh:
+        rec = json.load(fh)
+    main(rec["tier"], int(rec["seed"]))
+    with open(os.path.join(evidence.EVIDENCE_DIR, f"{PID}.json")) as fh:
+        cov = json.load(fh)["coverage"]
+    fired = rec["key"] in cov.get("unlisted_violation_keys", []) or rec["key"] in cov.get("known_findings_seen", [])
+    print(f"REPLAY property={PID} key={rec['key']} {'fired again' if fired else 'DIVERGED (inconclusive)'}")
+    return 1 if fired else 2
